@@ -191,13 +191,16 @@ func (c *AbstractTokenizer) ReadNextToken() *Token {
 		return nil
 	}
 
-	line := c.Scanner.PeekLine()
-	column := c.Scanner.PeekColumn()
+	var line, column int
 	var token *Token = nil
 
 	for true {
 		// Forget the token skipped by the previous iteration
 		token = nil
+
+		// Position of the token that starts here
+		line = c.Scanner.PeekLine()
+		column = c.Scanner.PeekColumn()
 
 		// Read character
 		nextChar := c.Scanner.Peek()
